@@ -49,7 +49,7 @@ Proof. rewrite run_chain_calls, firstn_length. lia. Qed.
 
 (* ---- reaction table ---- *)
 Definition honoured (p r : Z) : bool :=
-  ((p =? PAccept) && (r =? VClose))
+  (((p =? PAccept) || (p =? PHandshake)) && (r =? VClose))
   || (is_request_point p && ((r =? VClose) || (r =? VFinish) || (r =? VRedirect) || (r =? VResponse)))
   || ((p =? PForward) && (r =? VFinish))
   || ((p =? PReadResponse) && ((r =? VFinish) || (r =? VRedirect)))
@@ -65,10 +65,10 @@ Qed.
 
 Lemma reaction_ignored_iff p r : reaction p r = RIgnore <-> honoured p r = false.
 Proof.
-  unfold reaction, honoured, is_request_point, PAccept, PBeforeLocation, PFoundProduct, PAfterLocation,
+  unfold reaction, honoured, is_request_point, PAccept, PHandshake, PBeforeLocation, PFoundProduct, PAfterLocation,
     PForward, PReadResponse, PRequestFinish, VClose, VFinish, VRedirect, VResponse,
     RIgnore, RCloseDirect, RCloseAfterReply, RRedirect, RResponse.
-  destruct (p =? 0) eqn:E0; destruct (p =? 2) eqn:E2; destruct (p =? 3) eqn:E3; destruct (p =? 4) eqn:E4;
+  destruct (p =? 0) eqn:E0; destruct (p =? 1) eqn:E1; destruct (p =? 2) eqn:E2; destruct (p =? 3) eqn:E3; destruct (p =? 4) eqn:E4;
   destruct (p =? 5) eqn:E5; destruct (p =? 6) eqn:E6; destruct (p =? 7) eqn:E7;
   destruct (r =? 4) eqn:R4; destruct (r =? 0) eqn:R0; destruct (r =? 2) eqn:R2; destruct (r =? 3) eqn:R3;
   cbn; split; intro H; try reflexivity; try discriminate; try lia.
@@ -84,7 +84,7 @@ Definition earlier_pass (chains : Z -> list Z) (p : Z) : Prop :=
 Ltac open_request chains :=
   cbv zeta;
   unfold serve_request, request_points, forward_phase, response_got, finish_req, walk, react, verdict_at in *;
-  unfold PAccept, PBeforeLocation, PFoundProduct, PAfterLocation, PForward, PReadResponse, PRequestFinish, PFinish in *;
+  unfold PAccept, PHandshake, PBeforeLocation, PFoundProduct, PAfterLocation, PForward, PReadResponse, PRequestFinish, PFinish in *;
   repeat match goal with
          | |- context [run_chain (chains ?p)] =>
            let c := fresh "c" in let v := fresh "v" in let E := fresh "E" in
@@ -220,15 +220,18 @@ Proof.
   destruct (run_chain (chains p)) as [c v] eqn:E. cbn [snd fst] in *. rewrite Hr. reflexivity.
 Qed.
 
-(* HandleAccept Close: nothing is sent, no request is served *)
-Theorem accept_close_sends_nothing h bst chains :
-  react chains PAccept = RCloseDirect ->
-  let k := serve_conn h bst chains in
+(* HandleAccept Close / HandleHandshake Close: nothing is sent, no request is served *)
+Theorem accept_close_sends_nothing h bst tls chains :
+  react chains PAccept = RCloseDirect \/ (tls = true /\ react chains PHandshake = RCloseDirect) ->
+  let k := serve_conn h bst tls chains in
   k_reply k = no_reply /\ k_contacted k = 0 /\ k_open k = 0.
 Proof.
   intro Hr. unfold react in Hr. cbv zeta. unfold serve_conn.
-  destruct (run_chain (chains PAccept)) as [c0 v0] eqn:E0. destruct (run_chain (chains PFinish)) as [c8 v8] eqn:E8.
-  cbn [snd] in Hr. rewrite Hr. cbn. auto.
+  destruct (run_chain (chains PAccept)) as [c0 v0] eqn:E0. destruct (run_chain (chains PHandshake)) as [c1 v1] eqn:E1.
+  destruct (run_chain (chains PFinish)) as [c8 v8] eqn:E8.
+  cbn [snd] in Hr. destruct (reaction PAccept (ret v0) =? RCloseDirect) eqn:A; [cbn; auto|].
+  destruct Hr as [Hr|[Ht Hr]]; [rewrite Hr in A; discriminate|].
+  subst tls. rewrite Hr. cbn. auto.
 Qed.
 
 Example close_example :
